@@ -445,7 +445,9 @@ class CMapParser(PSStackParser[PSKeyword]):
                     prefix = code[:-4]
                     vlen = len(var)
                     for i in range(end - start + 1):
-                        x = prefix + struct.pack(">L", base + i)[-vlen:]
+                        # 4 - vlen, not -vlen: an empty target has vlen 0 and
+                        # [-0:] would be the whole four-byte string.
+                        x = prefix + struct.pack(">L", base + i)[4 - vlen :]
                         self.cmap.add_cid2unichr(start + i, x)
             return
 
